@@ -3,3 +3,4 @@ A = arena_common.pairs(); S = seg_common.pairs()
 PAIRS = [A[k] for k in ("clear_abandoned", "mark_abandoned", "clear_abandoned_at", "os_clear_abandoned")] + [S[k] for k in ("attempt_reclaim", "reclaim_all", "abandoned_collect", "try_reclaim")]
 import heap_collect_common as _hc
 PAIRS += [_hc.pair()]      # mi_heap_collect_ex: steps, force flags and order of a collection
+PAIRS += [_hc.page_collect_pair()]      # per-page step of a collection: empty => freed, live blocks => kept (abandoned on thread exit), never freed
